@@ -65,9 +65,9 @@ theorem N3_ts_change_basis (a : Fin 6 → Fin 9 → K) (r : Fin 3 → Fin 3 → 
 
 /-- `change_basis(C,R) = Q(R) * C * Q'(Rᵀ)` with `Q = st2tost2::fromRotationMatrix`, `Q' = st2tost2::fromRotationMatrix` -/
 theorem N2_st_change_basis (a : Fin 6 → Fin 6 → K) (r : Fin 3 → Fin 3 → K) :
-    let q : Fin 6 → Fin 6 → K := matOf 4 (gen% (Gen.N2_st_fromRotationMatrix_all c c3 fn) | r 3 3)
-    let qt : Fin 6 → Fin 6 → K := matOf 4 (gen% (Gen.N2_st_fromRotationMatrix_all c c3 fn) | (T2.transpose r) 3 3)
-    let qa : Fin 6 → Fin 6 → K := matOf 4 (gen% (Gen.N2_st_comp_all c c3 fn) | q 4 4 | a 4 4)
+    let q : Fin 6 → Fin 4 → K := matOf 4 (gen% (Gen.N2_st_fromRotationMatrix_all c c3 fn) | r 3 3)
+    let qt : Fin 6 → Fin 4 → K := matOf 4 (gen% (Gen.N2_st_fromRotationMatrix_all c c3 fn) | (T2.transpose r) 3 3)
+    let qa : Fin 6 → Fin 4 → K := matOf 4 (gen% (Gen.N2_st_comp_all c c3 fn) | q 4 4 | a 4 4)
     (gen% (Gen.N2_st_change_basis_all c c3 fn) | a 4 4 | r 3 3)
       = gen% (Gen.N2_st_comp_all c c3 fn) | qa 4 4 | qt 4 4 := by
   intro q qt qa
@@ -75,9 +75,9 @@ theorem N2_st_change_basis (a : Fin 6 → Fin 6 → K) (r : Fin 3 → Fin 3 → 
 
 /-- `change_basis(C,R) = Q(R) * C * Q'(Rᵀ)` with `Q = t2tot2::fromRotationMatrix`, `Q' = t2tot2::fromRotationMatrix` -/
 theorem N2_tt_change_basis (a : Fin 9 → Fin 9 → K) (r : Fin 3 → Fin 3 → K) :
-    let q : Fin 9 → Fin 9 → K := matOf 5 (gen% (Gen.N2_tt_fromRotationMatrix_all c c3 fn) | r 3 3)
-    let qt : Fin 9 → Fin 9 → K := matOf 5 (gen% (Gen.N2_tt_fromRotationMatrix_all c c3 fn) | (T2.transpose r) 3 3)
-    let qa : Fin 9 → Fin 9 → K := matOf 5 (gen% (Gen.N2_tt_comp_all c c3 fn) | q 5 5 | a 5 5)
+    let q : Fin 9 → Fin 5 → K := matOf 5 (gen% (Gen.N2_tt_fromRotationMatrix_all c c3 fn) | r 3 3)
+    let qt : Fin 9 → Fin 5 → K := matOf 5 (gen% (Gen.N2_tt_fromRotationMatrix_all c c3 fn) | (T2.transpose r) 3 3)
+    let qa : Fin 9 → Fin 5 → K := matOf 5 (gen% (Gen.N2_tt_comp_all c c3 fn) | q 5 5 | a 5 5)
     (gen% (Gen.N2_tt_change_basis_all c c3 fn) | a 5 5 | r 3 3)
       = gen% (Gen.N2_tt_comp_all c c3 fn) | qa 5 5 | qt 5 5 := by
   intro q qt qa
@@ -85,9 +85,9 @@ theorem N2_tt_change_basis (a : Fin 9 → Fin 9 → K) (r : Fin 3 → Fin 3 → 
 
 /-- `change_basis(C,R) = Q(R) * C * Q'(Rᵀ)` with `Q = st2tost2::fromRotationMatrix`, `Q' = t2tot2::fromRotationMatrix` -/
 theorem N2_ts_change_basis (a : Fin 6 → Fin 9 → K) (r : Fin 3 → Fin 3 → K) :
-    let q : Fin 6 → Fin 6 → K := matOf 4 (gen% (Gen.N2_st_fromRotationMatrix_all c c3 fn) | r 3 3)
-    let qt : Fin 9 → Fin 9 → K := matOf 5 (gen% (Gen.N2_tt_fromRotationMatrix_all c c3 fn) | (T2.transpose r) 3 3)
-    let qa : Fin 6 → Fin 9 → K := matOf 5 (gen% (Gen.N2_ts_comp_st_ts_all c c3 fn) | q 4 4 | a 4 5)
+    let q : Fin 6 → Fin 4 → K := matOf 4 (gen% (Gen.N2_st_fromRotationMatrix_all c c3 fn) | r 3 3)
+    let qt : Fin 9 → Fin 5 → K := matOf 5 (gen% (Gen.N2_tt_fromRotationMatrix_all c c3 fn) | (T2.transpose r) 3 3)
+    let qa : Fin 6 → Fin 5 → K := matOf 5 (gen% (Gen.N2_ts_comp_st_ts_all c c3 fn) | q 4 4 | a 4 5)
     (gen% (Gen.N2_ts_change_basis_all c c3 fn) | a 4 5 | r 3 3)
       = gen% (Gen.N2_ts_comp_ts_tt_all c c3 fn) | qa 4 5 | qt 5 5 := by
   intro q qt qa
